@@ -14,7 +14,7 @@ TOKENS = [
     "Sec", "Sec.", "Section", "Sections", "Secs", "§", "Sec 14", "Section 14", "Sec 14:", "Sec. 15:", "Sections 1 - 3", "Sec 1, 2 and 3:",
     "Sec 5 through Sec 2", "Secs 14 & 15", "§ 36", "Section 100", "Sec 0", "of Section 14", "in Section 15", "said Section 14", "within Sec 2",
     # digits that are not ASCII (PDF / OCR text): they are digits to the patterns
-    "Sec １４", "Section ٣:", "Lot ２", "T１５４N-R９７W", "Lots １ - ３",
+    "Sec １４", "Section ٣:", "Lot ２", "T１５４N-R９７W", "Lots １ - ３", "T154N-R97W Sec １４: NE/4", "NE/4 of Section ٣, T2N-R2W", "Secs ７ - ９: ALL",
     # zero and zero-padded bounds
     "Sec 0 - 3", "Sec 00 through 02", "Sections 3 - 0", "Sec 00", "Lots 0 - 2", "Lot 00", "Lot 0", "Lots 2 - 0", "Secs. 1 - 3", "Sects. 9 thru 7",
     # lots
